@@ -2,9 +2,11 @@ package tmpl
 
 import (
 	"fmt"
+	"go/ast"
 	"go/token"
 	"go/types"
 	"strings"
+	"sync"
 
 	"verif/checker/internal/interp"
 	"verif/checker/internal/load"
@@ -495,6 +497,8 @@ func BuildData(prog *load.Program, m *Model) (*interp.Struct, error) {
 // template helpers. Rendering a type any other way than
 // types.TypeString(v.vr.Type(), v.packageQualifier) is noted under G-RENDER.
 func InstallTypesModels(m *interp.Machine, prog *load.Program) {
+	installUninterpreted(m, prog)
+	InstallIdentifierModels(m)
 	attr := func(kind, name string) interp.ExtFunc {
 		return func(m *interp.Machine, pos token.Pos, recv interp.Value, args []interp.Value) (interp.Value, error) {
 			if o, ok := recv.(*interp.Opaque); ok && o.Kind == kind {
@@ -747,4 +751,90 @@ func (m *Model) PkgName() string {
 		return DestPkgName
 	}
 	return SrcPkgName
+}
+
+
+var (
+	uninterpMu    sync.Mutex
+	uninterpCache = map[*load.Program]map[string]*types.Func{}
+)
+
+// installUninterpreted: a template function of the Uninterpreted set that is a declared moq function
+// (`"Exported": exported`) is the same uninterpreted token map when the generator calls it from Go code
+// (field names precomputed into the data): equal arguments give equal tokens, the empty string stays empty.
+func installUninterpreted(m *interp.Machine, prog *load.Program) {
+	if prog == nil {
+		return
+	}
+	uninterpMu.Lock()
+	fns, ok := uninterpCache[prog]
+	if !ok {
+		fns = map[string]*types.Func{}
+		if src, err := Extract(prog); err == nil {
+			for name := range Uninterpreted {
+				if id, ok := src.Funcs[name].(*ast.Ident); ok {
+					if fn, ok := src.FuncsInfo.Uses[id].(*types.Func); ok {
+						fns[name] = fn
+					}
+				}
+			}
+		}
+		uninterpCache[prog] = fns
+	}
+	uninterpMu.Unlock()
+	for _, fn := range fns {
+		m.Ext[fn.FullName()] = func(m *interp.Machine, pos token.Pos, recv interp.Value, args []interp.Value) (interp.Value, error) {
+			if len(args) == 1 {
+				if s, ok := args[0].(*interp.Sym); ok {
+					if c, ok := s.Concrete(); ok && c == "" {
+						return interp.Lit(""), nil
+					}
+					return interp.Tok(OpExported + s.Flat()), nil
+				}
+			}
+			return &interp.Unknown{Why: "Exported of " + interp.Show(args[0])}, nil
+		}
+	}
+}
+
+
+// InstallIdentifierModels: go/token.IsIdentifier, IsKeyword, IsExported and types.Universe.Lookup on
+// constant names (a generated alias is tested for being usable as a package qualifier); unknown otherwise.
+func InstallIdentifierModels(m *interp.Machine) {
+	onConst := func(what string, f func(string) bool) interp.ExtFunc {
+		return func(m *interp.Machine, pos token.Pos, recv interp.Value, a []interp.Value) (interp.Value, error) {
+			if len(a) == 1 {
+				if s, ok := a[0].(*interp.Sym); ok {
+					if c, ok := s.Concrete(); ok {
+						return f(c), nil
+					}
+				}
+			}
+			return &interp.Unknown{Why: what + " of a symbolic name"}, nil
+		}
+	}
+	if _, have := m.Ext["go/token.IsIdentifier"]; !have {
+		m.Ext["go/token.IsIdentifier"] = onConst("token.IsIdentifier", token.IsIdentifier)
+	}
+	if _, have := m.Ext["go/token.IsKeyword"]; !have {
+		m.Ext["go/token.IsKeyword"] = onConst("token.IsKeyword", token.IsKeyword)
+	}
+	if _, have := m.Ext["go/token.IsExported"]; !have {
+		m.Ext["go/token.IsExported"] = onConst("token.IsExported", token.IsExported)
+	}
+	if _, have := m.ExtVars["go/types.Universe"]; !have {
+		m.ExtVars["go/types.Universe"] = &interp.Opaque{Kind: "types.Scope", ID: "universe", GoType: "*go/types.Scope", Methods: methods{
+			"Lookup": func(m *interp.Machine, pos token.Pos, a []interp.Value) (interp.Value, error) {
+				if s, ok := a[0].(*interp.Sym); ok {
+					if c, ok := s.Concrete(); ok {
+						if types.Universe.Lookup(c) == nil {
+							return interp.NilV{}, nil
+						}
+						return &interp.Opaque{Kind: "types.Object", ID: "universe." + c, GoType: "*go/types.TypeName", Methods: methods{"Name": opaqueMethod(interp.Lit(c))}}, nil
+					}
+				}
+				return &interp.Unknown{Why: "Universe.Lookup of a symbolic name"}, nil
+			},
+		}}
+	}
 }
